@@ -44,7 +44,8 @@ def run(run):
             run.violation(oid, detail, replay={'kind': 'inventory', 'detail': detail, 'reset_assigns': {'%s.%s' % k: v for k, v in inv['reset'].items()},
                                                'writes': {'%s.%s' % k: v for k, v in inv['writes'].items()}},
                           signature={'location': oid.split('/')[2]}, reproduced=False)
-    components.ast_functions(run, ['PEPit/pep.py::PEP._reset_classes'], run.tier, rt_quick=3, rt_thorough=10)
+    # (the module-level null_point / null_expression outlive every model: their values must be recomputed from the current registries, never kept)
+    components.ast_functions(run, ['PEPit/pep.py::PEP._reset_classes', 'PEPit/point.py::Point.eval', 'PEPit/expression.py::Expression.eval'], run.tier, rt_quick=25, rt_thorough=100)
     run.trust('pyvc.inventory: syntactic inventory of class-level / module-level state and of the statements that write it',
               'pyvc AST engine + z3 5.1 / cvc5 1.0.3')
     run.assume('objects created before the last PEP() are outside every contract (documented usage): they keep references to the old registries',
